@@ -11,10 +11,17 @@ MENU = {
     "c3": ("counter_vec", "a", "az", [["Z", "é"]], [], "COUNTER", [([], 32)]),
     "g1": ("gauge", "a", "az", [["Z", "az"]], [], "GAUGE", [([], 3)]),
     "v1": ("counter_vec", "aa", "a", [], ["a", "z"], "COUNTER", [(["", "a"], 1), (["a", ""], 2), (["z", "a"], 4), (["é", ""], 8), (["a", "a"], 16), (["你", "A"], 64)]),
-    "v2": ("gauge_vec", "a_a", "a", [], ["a"], "GAUGE", []),
+    "v2": ("gauge_vec", "a_a", "a", [["Z", "a"]], ["a"], "GAUGE", []),
     "h1": ("histogram", "a0", "a z", [], [], "HISTOGRAM", [([], 2)]),
     "p1": ("pulling_gauge", "Za", "a", [], [], "GAUGE", [([], 7)]),
     "i1": ("int_gauge", "a:a", "a", [], [], "GAUGE", [([], 5)]),
+    # collectors of the SAME non-counter kind sharing a name (merged families must keep the declared type)
+    "ga": ("gauge", "zz", "a", [["Z", "a"]], [], "GAUGE", [([], 3)]),
+    "gb": ("gauge_vec", "zz", "a", [["Z", "z"]], [], "GAUGE", [([], 9)]),
+    "ha": ("histogram", "a9", "a", [["Z", "a"]], [], "HISTOGRAM", [([], 1)]),
+    "hb": ("histogram", "a9", "a", [["Z", "z"]], [], "HISTOGRAM", [([], 3)]),
+    # a vector that has children next to the child-less vector v2 of the same name and kind
+    "v2b": ("gauge_vec", "a_a", "a", [["Z", "z"]], ["a"], "GAUGE", [(["z"], 4), ([""], 2)]),
     "i2": ("int_counter", "Z_a", "a", [], [], "COUNTER", [([], 6)]),      # its name already starts with the registry prefix "Z_"
     "hv": ("histogram_vec", "z", "z", [["Z9", "0"]], ["a"], "HISTOGRAM", [(["z"], 1), (["a"], 2), ([""], 1)]),
 }
@@ -106,4 +113,8 @@ def generate(ctx, ids, maxsize, prefixes, commons, label):
     r = tlc(ctx, "GatherGen", cfg, mc_text=mc, mc_name="MCGatherGen" + label, workers=8, label="gen" + label, timeout=3000)
     if not r["ok"]:
         raise ToolError("GatherGen failed: %s\n%s" % (r["violated"], r["output"][-3000:]))
-    return [decode_case(c) for c in printed_values(r["output"], "CASE")]
+    cases = [decode_case(c) for c in printed_values(r["output"], "CASE")]
+    if ctx.quick:
+        # quick tier: every configuration of <= 2 collectors, and a seed-dependent third of the larger ones
+        cases = [c for i, c in enumerate(cases) if len(c["sel"]) <= 2 or (i + ctx.seed) % 3 == 0]
+    return cases
